@@ -5,6 +5,7 @@ from gymnasium.spaces import Discrete, MultiBinary, MultiDiscrete, Dict, Tuple
 from gymnasium.spaces import Box as GymBox
 
 TICK = 1024  # float leaves: dyadic rationals k/1024
+NARROW = {0: np.int32, 1: np.int8, 2: np.uint8, 3: np.int16}
 
 
 def space_to_sx(space):
@@ -48,9 +49,30 @@ def build_space(spec, shapes=None, path=()):
         return GymBox(lo, hi, dtype=float)
     if t == 5:
         return Tuple(tuple(build_space(s, shapes, path + (i,)) for i, s in enumerate(spec[1:])))
+    if t == 7:
+        # bounded integer Box of a dtype other than int64 (check_space does not admit these)
+        dt = NARROW[spec[1]]
+        shape = (shapes or {}).get(path, (len(spec) - 2,))
+        lo = np.array([b[0] for b in spec[2:]], dtype=dt).reshape(shape)
+        hi = np.array([b[1] for b in spec[2:]], dtype=dt).reshape(shape)
+        return GymBox(lo, hi, dtype=dt)
     if t == 6:
-        items = [(f"k{i}", build_space(s, shapes, path + (i,))) for i, s in enumerate(spec[1:])]
-        d = Dict(dict(reversed(items)))
+        kids = [build_space(s, shapes, path + (i,)) for i, s in enumerate(spec[1:])]
+        # three key schemes, chosen by the shape of the spec: string keys that gymnasium sorts
+        # (stored order = sorted order), string keys given as a sequence of pairs (stored order =
+        # insertion order, which is NOT the sorted order), integer keys (numeric order differs
+        # from the order of their string forms)
+        scheme = (len(repr(spec)) + len(path)) % 3
+        if scheme == 0:
+            items = [(f"k{i}", k) for i, k in enumerate(kids)]
+            d = Dict(dict(reversed(items)))
+        elif scheme == 1:
+            items = [(f"{chr(122 - i)}{i}", k) for i, k in enumerate(kids)]
+            d = Dict(items)
+        else:
+            keys = [2, 10, 33, 104, 1000, 20000]
+            items = [(keys[i], k) for i, k in enumerate(kids)]
+            d = Dict(dict(reversed(items)))
         assert list(d.spaces.keys()) == [k for k, _ in items]
         return d
     raise ValueError(spec)
@@ -116,7 +138,7 @@ def spec_size(spec):
         for lo, hi in spec[1:]:
             n *= hi + 1 - lo
         return n
-    if t == 4:
+    if t in (4, 7):
         return None
     n = 1
     for s in spec[1:]:
@@ -128,8 +150,9 @@ def spec_size(spec):
 
 
 def spec_has_float(spec):
+    """float leaves or integer Boxes of a narrow dtype: not ravel-able"""
     t = spec[0]
-    if t == 4:
+    if t in (4, 7):
         return True
     if t in (5, 6):
         return any(spec_has_float(s) for s in spec[1:])
@@ -182,12 +205,21 @@ def random_point(spec, rng):
         return [1] + [rng.choice([lo, hi, rng.randint(lo, hi)]) for lo, hi in spec[1:]]
     if t == 4:
         return [2] + [rng.choice([lo, hi, rng.randint(lo, hi)]) for lo, hi in spec[1:]]
+    if t == 7:
+        return [1] + [rng.choice([lo, hi, rng.randint(lo, hi)]) for lo, hi in spec[2:]]
     return [3] + [random_point(s, rng) for s in spec[1:]]
 
 
-def random_leaf(rng, allow_float=False, big=False):
-    kinds = [0, 1, 2, 3] + ([4, 4] if allow_float else [])
+def random_leaf(rng, allow_float=False, big=False, narrow=False):
+    kinds = [0, 1, 2, 3] + ([4, 4] if allow_float else []) + ([7, 7] if narrow else [])
     t = rng.choice(kinds)
+    if t == 7:
+        code = rng.choice(sorted(NARROW))
+        out = [7, code]
+        for _ in range(rng.randint(1, 3)):
+            lo = rng.randint(0, 3) if code == 2 else rng.randint(-3, 3)
+            out.append([lo, lo + rng.randint(0, 3)])
+        return out
     m = 40 if big else 4
     if t == 0:
         return [0, rng.randint(1, m)]
@@ -208,11 +240,11 @@ def random_leaf(rng, allow_float=False, big=False):
     return out
 
 
-def random_spec(rng, depth, allow_float=False, big=False):
+def random_spec(rng, depth, allow_float=False, big=False, narrow=False):
     if depth == 0 or rng.random() < 0.3:
-        return random_leaf(rng, allow_float, big)
+        return random_leaf(rng, allow_float, big, narrow)
     t = rng.choice([5, 6])
-    return [t] + [random_spec(rng, depth - 1, allow_float, big)
+    return [t] + [random_spec(rng, depth - 1, allow_float, big, narrow)
                   for _ in range(rng.randint(1, 3))]
 
 
@@ -220,8 +252,8 @@ def box_shapes(spec, rng, path=()):
     """Choose a random multi-dimensional shape for every Box leaf."""
     out = {}
     t = spec[0]
-    if t in (3, 4):
-        n = len(spec) - 1
+    if t in (3, 4, 7):
+        n = len(spec) - (2 if t == 7 else 1)
         opts = [(n,)]
         if n % 2 == 0 and n >= 2:
             opts += [(2, n // 2), (n // 2, 2)]
